@@ -1,58 +1,60 @@
 # run parameters and manifest texts of the C20 check (read by ../props.py)
-# Three parts, one per function family; each is a test of its own in its own engine (package overlay):
-#   fatalerror: TestC20ErrorType       (+ native fuzz FuzzC20ErrorType)
-#   model:      TestC20ErrorCause      (+ native fuzz FuzzC20ErrorCause)
-#   appctx:     TestC20RuntimeRelease  (+ native fuzz FuzzC20RuntimeRelease)
-_PARTS = [
-    dict(engine='fatalerror', test='TestC20ErrorType',
-         quick=dict(checks=24000, shards=8, timeout=300),
-         thorough=dict(checks=100000, shards=14, timeout=1200)),
-    dict(engine='model', test='TestC20ErrorCause',
-         quick=dict(checks=8000, shards=8, timeout=300),
-         thorough=dict(checks=100000, shards=14, timeout=2400)),
-    dict(engine='appctx', test='TestC20RuntimeRelease',
-         quick=dict(checks=24000, shards=8, timeout=300),
-         thorough=dict(checks=100000, shards=14, timeout=1200)),
-]
-_FUZZ = [('FuzzC20ErrorType', 90, 'fatalerror'), ('FuzzC20ErrorCause', 90, 'model'), ('FuzzC20RuntimeRelease', 90, 'appctx')]
-
 PROP = {'engine': 'fatalerror',
  'test': 'TestC20ErrorType',
  'level': 'exploration',
- 'quick': _PARTS[0]['quick'],
- 'thorough': dict(_PARTS[0]['thorough'], fuzz=_FUZZ),
- 'parts': _PARTS,
- 'rule': 'Three generators, one per function. (1) error types: arbitrary bytes / unicode strings, valid values, a valid value with junk before and/or after '
-         '(blanks, newlines, digits, dots, NUL, non-UTF-8 bytes, second prefixes), a valid value with one position replaced / removed / lower-cased / cut, '
-         '"Function." + junk, the constants of the fatalerror table, strings of 100-200 000 bytes; fixed: the repository table and every '
-         '"<prefix>.A<tail>" with tails up to 3 (thorough 4) over {a,Z,.,0,newline}. Oracle: a hand-written reading of the statement (exactly Runtime.X / '
-         'Function.X, X one capital plus at least one letter -> unchanged; else Function.Unknown iff prefix "Function."; else Runtime.Unknown), cross-checked '
-         r'with the anchored expression ^(Runtime|Function)\.[A-Z][a-zA-Z]+$. Non-trivial: not valid but a valid form occurs inside. '
-         '(2) error causes: 80 % documents drawn structurally (working_directory, message, paths, exceptions with message/type/stack frames path/line/label; '
-         'absent / null / empty variants; strings = unit x repetitions with units such as <, >, &, quote, backslash, control bytes, non-UTF-8 bytes, multi-byte '
-         'characters; lengths tiny, around 30 720, around 64 KiB, around 64 KiB/6, 70-400 K, 1-4 MB; element repetition up to 20 000; unknown members; one '
-         'optional wrong-typed or syntactically broken spot out of 42; four escape styles; member order, white space, upper-case names, shadowed duplicate) '
-         'rendered by the test itself, 20 % raw bytes (repository examples, mutated examples, mutated rendered documents, arbitrary bytes, deep nesting). '
-         'Oracle: dropped (error, no output) iff a wrong spot was placed or no recognised field is non-empty (raw bytes: iff not valid JSON, not decodable '
-         'into the cause shape, or no recognised non-empty field); otherwise the output is valid JSON, an object with only cause members, at most 65 536 bytes, '
-         'every string equal to the original or a prefix of it + "...", every array a prefix of the original array, line numbers equal, and nothing shortened '
-         'when the whole cause fits. Non-trivial: accepted cause whose full encoding exceeds 64 KiB or whose strings need escape sequences. '
-         '(3) runtime release: 1-4 requests on one application context, User-Agent absent / blank / first word of 1-300 bytes (many between 118 and 130), '
-         'feature lists whose joined length aims at the remaining room +-9 split over 1-5 words, with parentheses, odd blanks, non-UTF-8 bytes, an extra word '
-         'that cannot fit; plus one direct call of CreateRuntimeReleaseFromRequest with an independent release string. Oracle after every request: unchanged '
-         'once features were appended; otherwise unchanged or previous value + " (" + in-order selection of the header\'s words without parentheses + ")"; '
-         'first value = first word of the User-Agent ("Unknown" when only features exist); length <= max(128, length of the user-agent word). Non-trivial: a '
-         'stored value of 120-136 bytes. Distinct = distinct case hash.',
- 'assumptions': ['the three functions are pure: the value returned for one input does not depend on earlier calls (no shared state is reset between cases)',
-                 'JSON semantics are those of encoding/json (member names matched case-insensitively, later duplicate wins, bytes outside UTF-8 read as U+FFFD); '
-                 'a string cut inside a multi-byte character, whose remaining bytes come out as U+FFFD before the "..." marker, counts as a shortened original',
+ 'quick': {'checks': 24000, 'shards': 8, 'timeout': 300},
+ 'thorough': {'checks': 100000,
+              'shards': 14,
+              'timeout': 1200,
+              'fuzz': [('FuzzC20ErrorType', 90, 'fatalerror'), ('FuzzC20ErrorCause', 90, 'model'), ('FuzzC20RuntimeRelease', 90, 'appctx')]},
+ 'parts': [{'engine': 'fatalerror',
+            'test': 'TestC20ErrorType',
+            'quick': {'checks': 24000, 'shards': 8, 'timeout': 300},
+            'thorough': {'checks': 100000, 'shards': 14, 'timeout': 1200}},
+           {'engine': 'model',
+            'test': 'TestC20ErrorCause',
+            'quick': {'checks': 8000, 'shards': 8, 'timeout': 300},
+            'thorough': {'checks': 100000, 'shards': 14, 'timeout': 2400}},
+           {'engine': 'appctx',
+            'test': 'TestC20RuntimeRelease',
+            'quick': {'checks': 24000, 'shards': 8, 'timeout': 300},
+            'thorough': {'checks': 100000, 'shards': 14, 'timeout': 1200}}],
+ 'rule': 'Three generators, one per function. (1) error types: arbitrary bytes / unicode strings, valid values, a valid value with junk before '
+         'and/or after (blanks, newlines, digits, dots, NUL, non-UTF-8 bytes, second prefixes), a valid value with one position replaced / removed / '
+         'lower-cased / cut, "Function." + junk, the constants of the fatalerror table, strings of 100-200 000 bytes; fixed: the repository table '
+         'and every "<prefix>.A<tail>" with tails up to 3 (thorough 4) over {a,Z,.,0,newline}. Oracle: a hand-written reading of the statement '
+         '(exactly Runtime.X / Function.X, X one capital plus at least one letter -> unchanged; else Function.Unknown iff prefix "Function."; else '
+         'Runtime.Unknown), cross-checked with the anchored expression ^(Runtime|Function)\\.[A-Z][a-zA-Z]+$. Non-trivial: not valid but a valid '
+         'form occurs inside. (2) error causes: 80 % documents drawn structurally (working_directory, message, paths, exceptions with '
+         'message/type/stack frames path/line/label; absent / null / empty variants; strings = unit x repetitions with units such as <, >, &, quote, '
+         'backslash, control bytes, non-UTF-8 bytes, multi-byte characters; lengths tiny, around 30 720, around 64 KiB, around 64 KiB/6, 70-400 K, '
+         '1-4 MB; element repetition up to 20 000; unknown members; one optional wrong-typed or syntactically broken spot out of 42; four escape '
+         'styles; member order, white space, upper-case names, shadowed duplicate) rendered by the test itself, 20 % raw bytes (repository examples, '
+         'mutated examples, mutated rendered documents, arbitrary bytes, deep nesting). Oracle: dropped (error, no output) iff a wrong spot was '
+         'placed or no recognised field is non-empty (raw bytes: iff not valid JSON, not decodable into the cause shape, or no recognised non-empty '
+         'field); otherwise the output is valid JSON, an object with only cause members, at most 65 536 bytes, every string equal to the original or '
+         'a prefix of it + "...", every array a prefix of the original array, line numbers equal (a cause that is shortened although it fits is only '
+         'counted: the statement allows shortening without saying when). Non-trivial: accepted cause whose full encoding exceeds 64 KiB or whose '
+         'strings need escape sequences. (3) runtime release: 1-4 requests on one application context, User-Agent absent / blank / first word of '
+         '1-300 bytes (many between 118 and 130), feature lists whose joined length aims at the remaining room +-9 split over 1-5 words, with '
+         'parentheses, odd blanks, non-UTF-8 bytes, an extra word that cannot fit; plus one direct call of CreateRuntimeReleaseFromRequest with an '
+         'independent release string. Oracle after every request: unchanged once features were appended; otherwise unchanged or previous value + " '
+         '(" + in-order selection of the header\'s words without parentheses + ")"; first value = first word of the User-Agent ("Unknown" when only '
+         'features exist); length <= max(128, length of the user-agent word). Non-trivial: a stored value of 120-136 bytes. Distinct = distinct case '
+         'hash.',
+ 'assumptions': ['the three functions are pure: the value returned for one input does not depend on earlier calls (no shared state is reset between '
+                 'cases)',
+                 'JSON semantics are those of encoding/json (member names matched case-insensitively, later duplicate wins, bytes outside UTF-8 read '
+                 'as U+FFFD); a string cut inside a multi-byte character, whose remaining bytes come out as U+FFFD before the "..." marker, counts '
+                 'as a shortened original',
                  'blank = Unicode white space (strings.Fields) for the words of the two headers',
                  'header values are handed to the functions directly (http.Header), so bytes an HTTP server would refuse (CR, LF, NUL) are included'],
- 'level_text': 'random search plus coverage-guided native fuzzing of three pure functions against specifications written from the statement; the error-type '
-               'part additionally enumerates all short tails after a valid prefix. Exploration: absence of a violation in the sampled inputs only.',
- 'level_note': 'the three functions are checked in isolation, not through the invocation-error / init-error handlers (Error-Type header, body pass-through and '
-               'the trace data at the caller belong to the full-stack cross-check planned in DESIGN.md section 6); the statement does not ask that features which '
-               'would fit are appended, so an implementation dropping features needlessly is not reported; the cause oracle accepts any prefix, it does not '
-               'ask for the longest one that fits',
- 'technique': 'property-based testing (rapid) with specification oracles; finite enumeration of short error-type tails; native Go fuzzing (3 targets) with the '
-              'same oracles'}
+ 'level_text': 'random search plus coverage-guided native fuzzing of three pure functions against specifications written from the statement; the '
+               'error-type part additionally enumerates all short tails after a valid prefix. Exploration: absence of a violation in the sampled '
+               'inputs only.',
+ 'level_note': 'the three functions are checked in isolation, not through the invocation-error / init-error handlers (Error-Type header, body '
+               'pass-through and the trace data at the caller belong to the full-stack cross-check planned in DESIGN.md section 6); the statement '
+               'does not ask that features which would fit are appended, so an implementation dropping features needlessly is not reported; the '
+               'cause oracle accepts any prefix, it does not ask for the longest one that fits',
+ 'technique': 'property-based testing (rapid) with specification oracles; finite enumeration of short error-type tails; native Go fuzzing (3 '
+              'targets) with the same oracles'}
